@@ -176,11 +176,11 @@ Proof.
   destruct (new_resource_z rl) as [rz mt]. cbn [fst] in *. rewrite scm_map_res, H. reflexivity.
 Qed.
 
-Theorem law_rt_list_model rl :
+Theorem law_rt_list_model rl : rl_in_range rl = true ->
   law_rt_list rl (fst (new_resource rl)) (snd (new_resource rl)) (convert (fst (new_resource rl))) = true.
 Proof.
-  unfold law_rt_list. apply forallb_forall. intros k _.
-  pose proof (convert_new_resource_any rl k) as H. cbn zeta in H.
+  intros Hr. unfold law_rt_list. apply forallb_forall. intros k _.
+  pose proof (convert_new_resource_any rl k Hr) as H. cbn zeta in H.
   pose proof (scm_new_resource rl k) as Hs. unfold scalar_of in Hs.
   assert (Hcpu : cpu (fst (new_resource rl)) = f64 (default 0 (rl !! cpu_name))).
   { unfold new_resource, new_resource_z. reflexivity. }
@@ -298,18 +298,20 @@ Qed.
 Lemma trunc_of_quot g x : 0 < g -> trunc_of g x (Z.quot x g) = true.
 Proof.
   intros Hg. unfold trunc_of.
-  pose proof (float_quantity_float_bounds g true x Hg) as [H1 H2]. cbn zeta in *.
-  rewrite (float_quantity_float g true x Hg) in *.
+  pose proof (float_quantity_float_bounds_z g true x Hg) as [H1 H2]. cbn zeta in *.
+  rewrite (float_quantity_float_z g true x Hg) in *.
   destruct (bool_decide (0 <= x)) eqn:E.
   - apply bool_decide_eq_true in E. specialize (H1 E). apply andb_true_iff. split; apply bool_decide_eq_true; lia.
   - apply bool_decide_eq_false in E. specialize (H2 ltac:(lia)). apply andb_true_iff. split; apply bool_decide_eq_true; lia.
 Qed.
 
-Theorem law_f2q2f_model g c x mant e : 0 < g ->
-  float_is mant e (Z.quot x g) = true ->
+Theorem law_f2q2f_model g c x mant e :
+  (conv_domain g x = true -> float_is mant e (Z.quot x g) = true) ->
   law_f2q2f g c x (float_to_quantity g c x) mant e = true.
 Proof.
-  intros Hg Hf. unfold law_f2q2f, float_to_quantity. destruct c; cbn [orb].
+  intros Hf. unfold law_f2q2f. destruct (conv_domain g x) eqn:Ed; [|reflexivity].
+  destruct (conv_domain_spec g x Ed) as (Hg & _ & I). specialize (Hf eq_refl).
+  unfold float_to_quantity. rewrite I. destruct c; cbn [orb].
   - rewrite trunc_of_quot by exact Hg. exact Hf.
   - rewrite (Z.mul_comm 1000), Z.mod_mul, Z.div_mul by lia.
     rewrite trunc_of_quot by exact Hg. rewrite Hf. reflexivity.
@@ -319,11 +321,14 @@ Theorem law_q2f2q_model c m mant e :
   float_is mant e (quantity_to_float 1 c m) = true ->
   law_q2f2q m c mant e (float_to_quantity 1 c (quantity_to_float 1 c m)) = true.
 Proof.
-  intros Hf. rewrite quantity_float_quantity by lia. unfold law_q2f2q, quantity_to_float in *.
-  destruct c.
-  - rewrite Z.mul_1_r in Hf. rewrite Hf. apply zeqb_true. reflexivity.
-  - rewrite Z.mul_1_r in Hf. rewrite (Z.mul_comm 1000 (qvalue m)), Z.mod_mul, Z.div_mul by lia.
-    rewrite Z.mul_comm, whole_up_qvalue, Hf. reflexivity.
+  intros Hf. unfold law_q2f2q. destruct (qty_domain c m) eqn:Ed.
+  - rewrite quantity_float_quantity by (lia || exact Ed).
+    unfold qty_domain in Ed. apply amount_ok_spec in Ed as [F _].
+    unfold quantity_to_float in Hf. rewrite F, Z.mul_1_r in Hf. destruct c.
+    + rewrite Hf. apply zeqb_true. reflexivity.
+    + rewrite (Z.mul_comm 1000 (qvalue m)), Z.mod_mul, Z.div_mul by lia.
+      rewrite Z.mul_comm, whole_up_qvalue, Hf. reflexivity.
+  - unfold quantity_to_float in Hf. rewrite Z.mul_1_r in Hf. exact Hf.
 Qed.
 
 Theorem law_sub_assert_model eps r rr :
